@@ -382,3 +382,109 @@ def r02g(R):
                 'with a leading minus the routine can succeed without '
                 'emitting / applying a negation: -x would compile as x',
                 path=path_text(p) if p else None)
+
+
+def _tighter(a, b):
+    """Documented grouping: operator a binds tighter than operator b."""
+    ca = [i for i, c in enumerate(PREC_CLASSES) if a in c][0]
+    cb = [i for i, c in enumerate(PREC_CLASSES) if b in c][0]
+    return ca > cb
+
+
+def _same_class(a, b):
+    return any(a in c and b in c for c in PREC_CLASSES)
+
+
+@rule('R02.f', ('C02',), 'precedence climbing: loop guards and the recursive '
+      'call\'s minimum precedence, folded over the operator table, give the '
+      'documented grouping', floor=14 * 14,
+      decides='equal-precedence operators group left to right (^ right to '
+              'left); a tighter operator to the right is reduced first; a '
+              'looser or equal one is not swallowed by the recursion')
+def r02f(R):
+    A = R.A
+    from ..const import Ctx, fold as kfold
+    ex = A.func(EXPR, 'ExpressionParser._expression')
+    prec_f = A.func(TOKEN, 'Token.prec')
+    assoc_f = A.func(TOKEN, 'Token.assoc')
+    whiles = [n for n in walk_own(ex.node) if isinstance(n, ast.While)]
+    outer = [w for w in whiles if any(isinstance(x, ast.While) and x is not w
+                                      for x in ast.walk(w))]
+    inner = [w for w in whiles if w not in outer]
+    if len(outer) != 1 or len(inner) != 1:
+        raise AnalysisError('ExpressionParser._expression: loop structure changed')
+    outer, inner = outer[0], inner[0]
+    rec = [c for c in ast.walk(inner) if isinstance(c, ast.Call)
+           and 'ExpressionParser._expression' in A.callee_names(ex, c)]
+    if len(rec) != 1 or not rec[0].args:
+        raise AnalysisError('ExpressionParser._expression: recursive call not found')
+    arg = rec[0].args[0]
+    min_param = ex.params[1]
+    syms = sorted(DOCUMENTED_BINOPS)
+    prec, assoc = {}, {}
+    for s in syms:
+        prec[s] = A.peval(prec_f, {'self.content': s, 'self._content': s})
+        assoc[s] = A.peval(assoc_f, {'self.content': s, 'self._content': s})
+
+    def subst(cur, op=None, min_prec=None):
+        d = {'self.current_token.prec': prec[cur],
+             'self.current_token.assoc': assoc[cur],
+             'self.current_token.is_binop': True}
+        if op is not None:
+            d['op.prec'] = prec[op]
+            d['op.assoc'] = assoc[op]
+        if min_prec is not None:
+            d[min_param] = min_prec
+        return d
+
+    def ev(expr, d):
+        return kfold(expr, Ctx(A.repo, ex.module, ex.cls, subst=d))
+
+    for op in syms:
+        for cur in syms:
+            want_recurse = _tighter(cur, op) or (_same_class(cur, op)
+                                                 and cur in RIGHT_ASSOC)
+            try:
+                g = bool(ev(inner.test, subst(cur, op)))
+            except Unfoldable as e:
+                raise AnalysisError('inner loop guard does not fold: %s' % e)
+            ok = g == want_recurse
+            msg = ''
+            if not ok:
+                msg = ('after `a %s b` a following %r must%s be reduced first, '
+                       'but the inner loop guard says %s'
+                       % (op, cur, '' if want_recurse else ' not', g))
+            elif g:
+                try:
+                    m = ev(arg, subst(cur, op))
+                except Unfoldable as e:
+                    raise AnalysisError('recursive argument does not fold: %s' % e)
+                # the recursion must consume `cur` ...
+                takes_cur = bool(ev(outer.test, subst(cur, None, m)))
+                # ... and must stop before any operator that should be applied
+                # after `op` (looser than or equal to op and not right-grouping)
+                swallowed = [y for y in syms
+                             if not (_tighter(y, op) or (_same_class(y, op)
+                                                         and y in RIGHT_ASSOC))
+                             and bool(ev(outer.test, subst(y, None, m)))]
+                ok = takes_cur and not swallowed
+                if not takes_cur:
+                    msg = ('the recursive call (min_prec %s) does not consume the '
+                           'tighter operator %r' % (m, cur))
+                elif swallowed:
+                    msg = ('in `a %s b %s c %s d` the recursive call (min_prec %s) '
+                           'also consumes %r, which must be applied after %r: '
+                           'equal-precedence operators group right to left'
+                           % (op, cur, swallowed[0], m, swallowed[0], op))
+            R.check(ex, 'a %s b %s c' % (op, cur), ok, msg)
+    # top level: expression() starts the climb at a minimum every binary
+    # operator passes
+    top = A.func(EXPR, 'ExpressionParser.expression')
+    starts = [c for c in A.calls_in(top)
+              if 'ExpressionParser._expression' in A.callee_names(top, c)]
+    ok = len(starts) == 1 and starts[0].args and all(
+        bool(ev(outer.test, subst(s, None, A.try_fold(starts[0].args[0], top))))
+        for s in syms)
+    R.check(top, 'top-level climb accepts every binary operator', ok,
+            'expression() starts the climb with a minimum precedence that '
+            'excludes some operator')
